@@ -54,7 +54,7 @@ flags: --slice-formula
 */
 /*@unit
 name: str_splice.nonempty
-define: VP=str, U_SPLICE, U_NONEMPTY, U_OTHER_NONEMPTY, U_POSCNT
+define: VP=str, VSTR_INST=0, VSTR_OWN_MEMCPY, VSTR_OWN_REALLOC, U_SPLICE, U_NONEMPTY, U_OTHER_NONEMPTY, U_POSCNT
 src: str.c, obj.c
 enforce: spif_str_splice
 backend: sat,z3
@@ -63,7 +63,7 @@ flags: --slice-formula
 */
 /*@unit
 name: str_splice.negcnt
-define: VP=str, U_SPLICE, U_NONEMPTY, U_OTHER_NONEMPTY, U_NEGCNT
+define: VP=str, VSTR_OWN_MEMCPY, VSTR_OWN_REALLOC, U_SPLICE, U_NONEMPTY, U_OTHER_NONEMPTY, U_NEGCNT
 src: str.c, obj.c
 enforce: spif_str_splice
 backend: sat,z3
@@ -72,7 +72,7 @@ flags: --slice-formula
 */
 /*@unit
 name: str_splice.other_empty
-define: VP=str, U_SPLICE, U_NONEMPTY, U_OTHER_EMPTY, U_POSCNT
+define: VP=str, VSTR_OWN_MEMCPY, VSTR_OWN_REALLOC, U_SPLICE, U_NONEMPTY, U_OTHER_EMPTY, U_POSCNT
 src: str.c, obj.c
 enforce: spif_str_splice
 backend: sat,z3
@@ -90,7 +90,7 @@ flags: --slice-formula
 */
 /*@unit
 name: str_splice_from_ptr.nonempty
-define: VP=str, U_SPLICE_FROM_PTR, U_NONEMPTY, U_POSCNT
+define: VP=str, VSTR_OWN_MEMCPY, VSTR_OWN_REALLOC, U_SPLICE_FROM_PTR, U_NONEMPTY, U_POSCNT
 src: str.c, obj.c
 enforce: spif_str_splice_from_ptr
 backend: sat,z3
@@ -99,7 +99,7 @@ flags: --slice-formula
 */
 /*@unit
 name: str_splice_from_ptr.negcnt
-define: VP=str, U_SPLICE_FROM_PTR, U_NONEMPTY, U_NEGCNT
+define: VP=str, VSTR_OWN_MEMCPY, VSTR_OWN_REALLOC, U_SPLICE_FROM_PTR, U_NONEMPTY, U_NEGCNT
 src: str.c, obj.c
 enforce: spif_str_splice_from_ptr
 backend: sat,z3
@@ -153,7 +153,7 @@ flags: --slice-formula
 */
 /*@unit
 name: ustr_splice.nonempty
-define: VP=ustr, U_SPLICE, U_NONEMPTY, U_OTHER_NONEMPTY, U_POSCNT
+define: VP=ustr, VSTR_INST=0, VSTR_OWN_MEMCPY, VSTR_OWN_REALLOC, U_SPLICE, U_NONEMPTY, U_OTHER_NONEMPTY, U_POSCNT
 src: ustr.c, obj.c
 enforce: spif_ustr_splice
 backend: sat,z3
@@ -162,7 +162,7 @@ flags: --slice-formula
 */
 /*@unit
 name: ustr_splice.negcnt
-define: VP=ustr, U_SPLICE, U_NONEMPTY, U_OTHER_NONEMPTY, U_NEGCNT
+define: VP=ustr, VSTR_OWN_MEMCPY, VSTR_OWN_REALLOC, U_SPLICE, U_NONEMPTY, U_OTHER_NONEMPTY, U_NEGCNT
 src: ustr.c, obj.c
 enforce: spif_ustr_splice
 backend: sat,z3
@@ -171,7 +171,7 @@ flags: --slice-formula
 */
 /*@unit
 name: ustr_splice.other_empty
-define: VP=ustr, U_SPLICE, U_NONEMPTY, U_OTHER_EMPTY, U_POSCNT
+define: VP=ustr, VSTR_OWN_MEMCPY, VSTR_OWN_REALLOC, U_SPLICE, U_NONEMPTY, U_OTHER_EMPTY, U_POSCNT
 src: ustr.c, obj.c
 enforce: spif_ustr_splice
 backend: sat,z3
@@ -189,7 +189,7 @@ flags: --slice-formula
 */
 /*@unit
 name: ustr_splice_from_ptr.nonempty
-define: VP=ustr, U_SPLICE_FROM_PTR, U_NONEMPTY, U_POSCNT
+define: VP=ustr, VSTR_OWN_MEMCPY, VSTR_OWN_REALLOC, U_SPLICE_FROM_PTR, U_NONEMPTY, U_POSCNT
 src: ustr.c, obj.c
 enforce: spif_ustr_splice_from_ptr
 backend: sat,z3
@@ -198,7 +198,7 @@ flags: --slice-formula
 */
 /*@unit
 name: ustr_splice_from_ptr.negcnt
-define: VP=ustr, U_SPLICE_FROM_PTR, U_NONEMPTY, U_NEGCNT
+define: VP=ustr, VSTR_OWN_MEMCPY, VSTR_OWN_REALLOC, U_SPLICE_FROM_PTR, U_NONEMPTY, U_NEGCNT
 src: ustr.c, obj.c
 enforce: spif_ustr_splice_from_ptr
 backend: sat,z3
@@ -276,6 +276,7 @@ void harness(void)
 #define SPL_OK(len, idx, cnt) (IDX_OK(len, idx) && SPL_C(len, idx, cnt) >= 0 && SPL_C(len, idx, cnt) <= (len) - N_I(len, idx))
 #ifdef U_SPLICE
 # define OLEN        (other == NULL ? (VIDX) 0 : other->len)
+# define OLEN_PRE    OLEN
 # define OBYTE(k)    (other->s[(k)])
 # define OTHER_REQ   __CPROVER_requires(STR_OTHER_PRE(other))
 # define SPL_ASSIGNS STR_ASSIGNS(self)
@@ -283,6 +284,7 @@ spif_bool_t VF(splice)(VT self, VIDX idx, VIDX cnt, VT other)
 #else
 /* the inserted text is the C string other (NULL = nothing inserted), length = what strlen reports */
 # define OLEN        (other == NULL ? (VIDX) 0 : (VIDX) vg_slen)
+# define OLEN_PRE    (other == NULL ? (VIDX) 0 : (VIDX) vg_n1)
 # define OBYTE(k)    (other[(k)])
 # define OTHER_REQ   __CPROVER_requires(other == NULL || VCSTR_FRESH(other, vg_n1))
 # define SPL_ASSIGNS STR_ASSIGNS(self); vg_slen, vg_slen_ptr
@@ -290,29 +292,47 @@ spif_bool_t VF(splice_from_ptr)(VT self, VIDX idx, VIDX cnt, spif_charptr_t othe
 #endif
 __CPROVER_requires(STR_SELF_PRE(self))
 OTHER_REQ
+/* ghost binding (vg_k2 is arbitrary, so nothing is restricted): result position of inserted byte vg_k */
+__CPROVER_requires(!IDX_OK(self->len, idx) || vg_k2 == (size_t) N_I(self->len, idx) + vg_k)
 #ifdef U_POSCNT
 __CPROVER_requires(cnt >= 0)
 #endif
 #ifdef U_NEGCNT
 __CPROVER_requires(cnt < 0)
 #endif
+/* path behaviours (their union is the whole precondition): refused / accepted and the result fits the
+ * reported capacity / accepted and the buffer must grow */
+#ifdef U_REFUSED
+__CPROVER_requires(!SPL_OK(self->len, idx, cnt))
+#endif
+#ifdef U_FITS
+__CPROVER_requires(SPL_OK(self->len, idx, cnt) && self->size >= self->len + OLEN_PRE - SPL_C(self->len, idx, cnt) + 1)
+#endif
+#ifdef U_GROWS
+__CPROVER_requires(SPL_OK(self->len, idx, cnt) && self->size < self->len + OLEN_PRE - SPL_C(self->len, idx, cnt) + 1)
+#endif
 __CPROVER_assigns(SPL_ASSIGNS)
 __CPROVER_frees(self->s)
 /* refused: nothing changes */
 __CPROVER_ensures(SPL_OK(OL0, idx, cnt) || (R == FALSE && STR_UNCHANGED(self)))
 #ifdef U_NONEMPTY
-__CPROVER_ensures(SPL_OK(OL0, idx, cnt) || !(vg_k <= (size_t) OL0) || self->s[vg_k] == STR_OLD_AT(self, vg_k))
+__CPROVER_ensures(SPL_OK(OL0, idx, cnt) || !(vg_k < (size_t) OL0) || self->s[vg_k] == STR_OLD_AT(self, vg_k))
+__CPROVER_ensures(SPL_OK(OL0, idx, cnt) || self->s[OL0] == 0)
 #endif
 /* accepted */
 __CPROVER_ensures(!SPL_OK(OL0, idx, cnt) || (R == TRUE && STR_NONEMPTY_POST(self)))
 __CPROVER_ensures(!SPL_OK(OL0, idx, cnt) || self->len == OL0 + OLEN - SPL_C(OL0, idx, cnt))
-#ifdef U_NONEMPTY
+#if defined(U_NONEMPTY) && defined(U_VIEW_HEAD)
 __CPROVER_ensures(!SPL_OK(OL0, idx, cnt) || !(vg_k < (size_t) N_I(OL0, idx)) || self->s[vg_k] == STR_OLD_AT(self, vg_k))
+#endif
+#if defined(U_NONEMPTY) && defined(U_VIEW_INS)
 __CPROVER_ensures(!SPL_OK(OL0, idx, cnt) || !(vg_k < (size_t) OLEN) || self->s[(size_t) N_I(OL0, idx) + vg_k] == OBYTE(vg_k))
-/* tail: result position I+olen+k holds old text position I+C+k */
-__CPROVER_ensures(!SPL_OK(OL0, idx, cnt) || !((size_t) (N_I(OL0, idx) + SPL_C(OL0, idx, cnt)) + vg_k < (size_t) OL0) ||
-                  self->s[(size_t) (N_I(OL0, idx) + OLEN) + vg_k] ==
-                  __CPROVER_old(self->s[STR_KIDX(self, (size_t) (N_I(self->len, idx) + SPL_C(self->len, idx, cnt)) + vg_k)]))
+#endif
+#if defined(U_NONEMPTY) && defined(U_VIEW_TAIL)
+/* tail, counted from the end: the vg_k-th character before the end is the old vg_k-th character before the end */
+__CPROVER_ensures(!SPL_OK(OL0, idx, cnt) || !(vg_k < (size_t) OL0 && (size_t) (N_I(OL0, idx) + SPL_C(OL0, idx, cnt)) + vg_k < (size_t) OL0) ||
+                  self->s[(size_t) self->len - 1 - vg_k] ==
+                  __CPROVER_old(self->s[STR_KIDX(self, (size_t) self->len - 1 - STR_KIDX(self, vg_k))]))
 #endif
 ;
 void harness(void)
